@@ -38,7 +38,7 @@ STUB = []
 ASSUMPTIONS = ['a refused rename leaves the renamed wire unregistered: outside the statement, the model follows the library there']
 PROBES = ['refused_second_driver', 'refused_dup_child', 'refused_dup_wire_create', 'refused_dup_wire_rename',
           'refused_dup_wire_reparent', 'accepted_op', 'integrity_accept', 'integrity_missing_driver', 'integrity_dup_driver',
-          'structural_second_driver', 'same_block_second_driver', 'integrity_recheck_after_edit', 'integrity_same_name_other_scope',
+          'structural_second_driver', 'same_block_second_driver', 'integrity_recheck_after_edit', 'integrity_same_name_other_scope', 'integrity_undriven_wire_named_clk', 'integrity_after_history',
           'refused_dup_wire_bundle', 'inout_second_driver', 'inout_on_plain_wire',
           'refused_dup_wire_interface', 'interface_signal_removed', 'driver_disconnected', 'refused_disconnect']
 
@@ -405,6 +405,23 @@ def run_ops(scn, log, st):
             if w.source is not d0:
                 raise Violation('registry', 'driver-diverged', si, 'driver of %s changed unexpectedly' % w.getFullPath())
         log.add(si, repr(sorted(op.items())), refused, accepted)
+    # the hierarchy that the history left behind: a port attached to a wire that no block of the hierarchy drives (no
+    # driver at all, or a registered driver that belongs to a block which is not part of the hierarchy) must be reported
+    live = {id(o) for o in seams.walk(hw)}
+    undriven = []
+    for o in seams.walk(hw):
+        for q in o.inPorts + o.outPorts:
+            if q.wire is not None and (q.wire.source is None or id(q.wire.source.parent) not in live):
+                undriven.append(q.getFullPath())
+    if undriven:
+        try:
+            with quiet():
+                py4hw.debug.checkIntegrity(hw)
+        except Exception:
+            st.probe('integrity_after_history')
+        else:
+            raise Violation('integrity', 'integrity:accepted-undriven:after-history', len(scn['ops']),
+                            'checkIntegrity accepted the hierarchy left by the history although %s is attached to a wire no block of the hierarchy drives' % undriven[0])
     if refused:
         st.fault('illegal_op', refused)
         st.probe('accepted_op', accepted)
@@ -517,6 +534,10 @@ def shadow_names(d, omit, st):
         s = 'n%d.%d' % (omit, j)
         if s in outs:
             continue
+        if omit % 2 == 0 and not (d.get('names') or {}) and any(s in n['ins'] for n in d['nodes']):
+            # ... or the name of the clock net of the system (the wire lives in a sub-block, where that name is free)
+            st.probe('integrity_undriven_wire_named_clk')
+            return dict(d, names={s: 'clk'})
         readers = [n for n in d['nodes'] if s in n['ins'] and n['id'] != omit]
         paths = [tuple(nodes[omit]['grp'])] + [tuple(n['grp']) for n in readers]
         lca = paths[0]
